@@ -22,6 +22,7 @@ func init() {
 		Run:     runC17,
 		Relies: []Dep{
 			{Prop: "C01", Rule: "R2", Keys: []string{"IsNil"}, Floor: 1, Why: "the API constructors decide 'no body' with fpgo.IsNil: nil slices/maps must still be serialised"},
+			{Prop: "C18", Rule: "R2", Keys: []string{"SimpleHTTPDef.client/per-instance"}, Floor: 1, Why: "the request of one API goes through its own SimpleHTTP only: a client shared between instances sends it through the other instances' interceptor chains (foreign headers, foreign errors, zero requests)"},
 		},
 	})
 }
@@ -536,7 +537,15 @@ func c17effect(p *core.Prog, g, perCall, eff, fold *ssa.Function, doNew map[stri
 	if !relOK || !ppOK {
 		return false, "the template substitution is not applied to (relativeURL, pathParam) of this API call"
 	}
-	if withBody {
+	if withBody && ser == nil && len(perCall.Params) < 3 {
+		// an API without a body sent through the general entry point: no body and no content type, as DoNewRequest does
+		isEmpty := func(v ssa.Value) bool { s, isS := strConst(v); return isS && s == "" }
+		allB, _ := fromSer(args[5], rstack, 0, core.IsNilConst)
+		allC, _ := fromSer(args[6], rstack, 1, isEmpty)
+		if !allB || !allC {
+			return false, "an API declared without a body sends a body or a Content-Type"
+		}
+	} else if withBody {
 		// body reader = nil or the serializer's first result
 		if all, some := fromSer(args[5], rstack, 0, core.IsNilConst); !all || !some || ser == nil {
 			return false, "the request body is not the serializer's output for the given body"
@@ -837,6 +846,43 @@ func c17appliesHeader(p *core.Prog, f *ssa.Function, withCT bool) (bool, string)
 				return m.Op == token.EQL && isS && s == ""
 			})
 		})
+		if !okC && helperBuild != nil {
+			// the helper that builds the request adds the content type it is given before it returns the request
+			h := helperBuild.Parent()
+			for j, prm := range h.Params {
+				if j >= len(build.Call.Args) || core.Resolve(build.Call.Args[j]) != ct {
+					continue
+				}
+				hCT := ssa.Value(prm)
+				hErrEdge := func(b, s2 *ssa.BasicBlock) bool {
+					iff, ok := b.Instrs[len(b.Instrs)-1].(*ssa.If)
+					if !ok || len(b.Succs) != 2 {
+						return false
+					}
+					for _, cnd := range core.ExpandCond(core.Cond{V: iff.Cond, True: b.Succs[0] == s2, If: iff}) {
+						if m, isM := core.AsCmp(cnd); isM && m.Op == token.NEQ && core.IsNilConst(m.Y) {
+							if ex, isE := core.Resolve(m.X).(*ssa.Extract); isE && ex.Tuple == ssa.Value(helperBuild) && ex.Index == 1 {
+								return true
+							}
+						}
+					}
+					return false
+				}
+				okC, _ = core.MustPassBefore(helperBuild, func(ins ssa.Instruction) bool {
+					call, ok := ins.(*ssa.Call)
+					if !ok || core.StdCallee(&call.Call) != "net/http.(Header).Add" && core.StdCallee(&call.Call) != "net/http.(Header).Set" {
+						return false
+					}
+					k, isS := strConst(call.Call.Args[1])
+					return isS && k == "Content-Type" && core.Resolve(call.Call.Args[2]) == hCT
+				}, func(ssa.Instruction) bool { return false }, func(b, s2 *ssa.BasicBlock) bool {
+					return hErrEdge(b, s2) || isParamTest(b, s2, hCT, func(m core.Cmp) bool {
+						s, isS := strConst(m.Y)
+						return m.Op == token.EQL && isS && s == ""
+					})
+				})
+			}
+		}
 		if !okC {
 			return false, "the declared Content-Type is not added to the request on every path where it is non-empty"
 		}
